@@ -107,6 +107,12 @@ def structured_sources():
                     for p in pays:
                         yield f + t + s2 + t2 + (b'y = "' + p + b'"' if t2 else b'')
                         yield f + t + s2 + t2 + p
+    # a declaration on line 3 or later (after blank / whitespace-only lines, possibly after a comment line) is not one
+    for pre in (b'\n\n', b'\n \n', b'#!/usr/bin/env python\n\n\n', b'\r\n\r\n', b'\n\x0c\n', b' \n\t\n\n'):
+        for decl in (b'# -*- coding: latin-1 -*-', b'# coding: no-such-codec', b'#coding=cp1252'):
+            for nl in (b'\n', b'\r\n'):
+                for p in pays:
+                    yield pre + decl + nl + b'y = "' + p + b'"'
 
 
 def oracle_selfcheck():
